@@ -156,14 +156,8 @@ impl MT101 {
                     }
                     _ => {
                         // Unknown variant - try instructing party first, then ordering customer
-                        if let Ok(Some(field)) =
-                            parser.parse_optional_variant_field::<Field50InstructingParty>("50")
-                        {
-                            instructing = Some(field);
-                        } else {
-                            ordering = parser
-                                .parse_optional_variant_field::<Field50OrderingCustomerFGH>("50")?;
-                        }
+                        instructing =
+                            parser.parse_optional_variant_field::<Field50InstructingParty>("50")?;
                     }
                 }
             }
